@@ -644,6 +644,54 @@ fn main() {
     }
     res.cov("two_destinations_one_address_cases", two_dest_cases);
 
+    // ---- family: the rules a request is judged by are those of its connection's recorded destination, whatever port the
+    // request target (absolute-form) names: endpoint X refuses everything (enforce, default deny, no grants), endpoint Y on the
+    // same address has no rules
+    let mut target_port_cases = 0u64;
+    {
+        let hosts = cx.w.hosts.all();
+        let idx = |a: &str| hosts.iter().position(|h| h.addr.to_string() == a).unwrap();
+        let deny_all = || -> Option<gpa_harness::key_keeper::key::AuthorizationItem> {
+            Some(serde_json::from_value(json!({"defaultAccess": "deny", "mode": "enforce", "id": "deny-all", "rules": {"privileges": [], "roles": [], "identities": [], "roleAssignments": []}})).unwrap())
+        };
+        let p5 = 41700u16;
+        for (closed, open) in [(WS, HOSTGA), (HOSTGA, WS)] {
+            cx.w.set_rules(closed, deny_all());
+            cx.w.set_rules(open, None);
+            for recorded in [closed, open] {
+                let other = if recorded == closed { open } else { closed };
+                for position in [0usize, 2] {
+                    for target in [format!("http://{other}/tp/x"), format!("http://{recorded}/tp/x"), "/tp/x".to_string()] {
+                        cx.w.clear_audit();
+                        let cur = cx.w.hosts.cursors();
+                        let mut c = cx.w.connect(Some(p5), Some(&AuditRec::to(recorded, 0, cx.root_pid, true))).unwrap_or_else(|e| vcommon::result::machinery(&format!("connect: {e}")));
+                        let ask = |c: &mut Client, t: &str| c.send(&build_request("GET", t, &[("Host", b"h")], None, None)).map_err(|e| e.to_string()).and_then(|_| c.read_response(false, Duration::from_secs(10)).map(|m| m.status()));
+                        let want = if recorded == closed { Ok(403) } else { Ok(200) };
+                        let mut before = Vec::new();
+                        for _ in 0..position {
+                            before.push(ask(&mut c, "/tp/before"));
+                        }
+                        let st = ask(&mut c, &target);
+                        c.close();
+                        target_port_cases += 1;
+                        let at = |host: &str| hosts[idx(host)].requests_since(cur[idx(host)]).iter().filter(|(_, m)| m.target().ends_with("/tp/x")).count();
+                        let (at_rec, at_other) = (at(recorded), at(other));
+                        if st != want || before.iter().any(|b| *b != want) || at_other != 0 || at_rec != (if recorded == closed { 0 } else { 1 }) {
+                            res.violation(
+                                "request-judged-by-the-rules-of-an-endpoint-other-than-the-recorded-one",
+                                &format!("{closed} refuses everything, {open} has no rules; connection recorded for {recorded}; request {} with target {target} got {:?} (want {:?}; requests before it: {:?}); seen at {recorded}: {at_rec}, at {other}: {at_other}", position + 1, st, want, before),
+                                json!({"family": "request-target-names-another-port", "refusing_endpoint": closed, "recorded": recorded, "target": target, "position": position}),
+                            );
+                        }
+                        let _ = cx.sentinel();
+                    }
+                }
+            }
+            cx.w.set_rules(closed, None);
+        }
+    }
+    res.cov("request_target_names_another_port_cases", target_port_cases);
+
     // ---- family: a record waits for source port Q (its connection has not reached the listener yet); a direct connection
     // comes from a port that is Q with its two bytes swapped, or Q +- 1, Q +- 256: it is unattributed and Q's record stays
     let mut near_port_cases = 0u64;
